@@ -236,9 +236,16 @@ func runC19(c *sim.Ctx, t *testing.T) {
 	sess := &Session{DefaultTimeout: 2 * time.Second, Interpreters: core.InterpretersMap{"ecmascript": ecmascript.NewInterpreter()}}
 	for i, st := range steps {
 		iop := IO{Inputs: []interface{}{fmt.Sprintf(`{"go":%d}`, i)}, Timeout: st.timeout}
-		if c.Bool("waits") {
+		switch c.Intn(4, "waits") {
+		case 1:
 			iop.WaitBefore = 5 * time.Millisecond
 			iop.WaitAfter = 5 * time.Millisecond
+		case 2:
+			// the sender is still pausing when the step's time runs out
+			iop.WaitAfter = 700 * time.Millisecond
+		case 3:
+			iop.WaitBefore = 200 * time.Millisecond
+			iop.WaitAfter = 400 * time.Millisecond
 		}
 		for _, o := range st.outputs {
 			pat := map[string]interface{}{"k": o.key}
@@ -252,6 +259,36 @@ func runC19(c *sim.Ctx, t *testing.T) {
 		sess.IOs = append(sess.IOs, iop)
 	}
 
+	nruns := 1
+	if c.Chance(1, 3, "rerun") {
+		// a harness that runs one parsed session file again (a retry): the same Session value
+		nruns = 2
+	}
+	var runErr error
+	for runNo := 1; runNo <= nruns; runNo++ {
+		if !xRunOnce(c, t, sess, steps, runNo, &runErr) {
+			return
+		}
+	}
+	shape := ""
+	for _, st := range steps {
+		shape += fmt.Sprintf("%d%s/", len(st.outputs), st.fault)
+	}
+	c.Path = shape + fmt.Sprint(runErr == nil)
+	c.Trivial = false
+	c.Sample = map[string]interface{}{"steps": shape, "runs_of_the_session": nruns, "tool_error": errText(runErr)}
+}
+
+func errText(err error) string {
+	if err == nil {
+		return ""
+	}
+	return err.Error()
+}
+
+// xRunOnce runs the session once against a fresh simulated child and applies the
+// oracle; returns false after recording a violation (or when nothing more can be said).
+func xRunOnce(c *sim.Ctx, t *testing.T, sess *Session, steps []*xStep, runNo int, lastErr *error) bool {
 	type emitted struct {
 		step int
 		pos  int
@@ -264,6 +301,7 @@ func runC19(c *sim.Ctx, t *testing.T) {
 		returned bool
 		endedAt  time.Duration
 	)
+	_ = endedAt
 	sim.Bubble(c, t, func(s *sim.Sched) {
 		s.Horizon = 2 * time.Minute
 		s.MaxSteps = 6000
@@ -313,7 +351,7 @@ func runC19(c *sim.Ctx, t *testing.T) {
 	})
 	c.SimTime = c.Sched.SimTime
 	evs := lg.Events()
-	desc := ""
+	desc := fmt.Sprintf("\n  (run %d of the same Session value)", runNo)
 	for i, st := range steps {
 		desc += fmt.Sprintf("\n  step %d (timeout %v, fault %s): expects", i, st.timeout, st.fault)
 		for _, o := range st.outputs {
@@ -418,13 +456,13 @@ func runC19(c *sim.Ctx, t *testing.T) {
 		} else if !c.Sched.Exhausted {
 			c.Violate("verdict:hang:clean", "Session.Run did not return within %v of simulated time although every expected line arrived in time%s", c.Sched.SimTime, desc)
 		}
-		return
+		return false
 	}
 	if runErr == nil {
 		c.Count("tool_passed")
 		if why != "" {
 			c.Violate("verdict:false-pass:"+faultOf, "the tool passed the session, but %s%s", why, desc)
-			return
+			return false
 		}
 	} else {
 		c.Count("tool_failed")
@@ -432,19 +470,6 @@ func runC19(c *sim.Ctx, t *testing.T) {
 			c.Count("tool_failed_though_conditions_held")
 		}
 	}
-	_ = endedAt
-	shape := ""
-	for _, st := range steps {
-		shape += fmt.Sprintf("%d%s/", len(st.outputs), st.fault)
-	}
-	c.Path = shape + fmt.Sprint(runErr == nil)
-	c.Trivial = false
-	c.Sample = map[string]interface{}{"session": desc, "tool_error": errText(runErr)}
-}
-
-func errText(err error) string {
-	if err == nil {
-		return ""
-	}
-	return err.Error()
+	*lastErr = runErr
+	return true
 }
